@@ -11,6 +11,7 @@ import (
 	"math/big"
 	"os"
 	"reflect"
+	"sync"
 	"time"
 
 	"github.com/trustbloc/sidetree-go/pkg/api/operation"
@@ -254,7 +255,7 @@ func transformReplay(args []string) {
 					m["purposes"] = pp
 				}
 
-				ed := pool.Get("ed", fmt.Sprintf("tr%d", key.ID))
+				ed := trEdKey(pool, key.ID)
 				ec := pool.Get("p256", fmt.Sprintf("tr%d", key.ID))
 
 				switch {
@@ -396,7 +397,7 @@ func transformReplay(args []string) {
 				vm := vmByID[qid(e.ID)]
 				want := map[string]interface{}{"id": qid(e.ID), "type": e.Type, "controller": tDID}
 				g := given[e.ID.ID]
-				ed := pool.Get("ed", fmt.Sprintf("tr%d", e.ID.ID))
+				ed := trEdKey(pool, e.ID.ID)
 
 				switch e.Material {
 				case "jwk-as-given":
@@ -788,4 +789,30 @@ func metaCovers(got, want map[string]interface{}) bool {
 	}
 
 	return true
+}
+
+// trEdKey: the Ed25519 key of internal key id; for odd ids a key whose public key starts with a zero byte (found by
+// search: base58 and multibase have a digit of their own for leading zero bytes)
+var trEdCache sync.Map
+
+func trEdKey(pool *KeyPool, id int) *Key {
+	if id%2 == 0 {
+		return pool.Get("ed", fmt.Sprintf("tr%d", id))
+	}
+
+	if k, ok := trEdCache.Load(id); ok {
+		return k.(*Key)
+	}
+
+	for i := 0; i < 20000; i++ {
+		k := pool.Get("ed", fmt.Sprintf("tr%d-zero-%d", id, i))
+		if pk, ok := k.Pub.(ed25519.PublicKey); ok && pk[0] == 0 {
+			trEdCache.Store(id, k)
+			return k
+		}
+	}
+
+	fatalf("no Ed25519 key with a leading zero byte found")
+
+	return nil
 }
